@@ -580,6 +580,14 @@ func judgePublic(o *fw.Obs, cid byte, mp *slip10m.Params, node *slip10.ExtendedK
 	if !cmpNode(o, what, pub, mpub) {
 		return false
 	}
+	// Public() of a key that is already public: the same public node (key, chain code, parent fingerprint)
+	var pub2 *slip10.ExtendedKey
+	if !o.Try("ExtendedKey.Public (of a public key)", func() { pub2 = pub.Public() }) {
+		return false
+	}
+	if !cmpNode(o, what+", Public() called on the public key again", pub2, mpub) {
+		return false
+	}
 	// index: the next path element made non-hardened, and (alternating) a hardened one
 	var idx uint32
 	if step < len(path) {
